@@ -762,7 +762,7 @@ func ruleRawFields(c *chk.Ctx) {
 					return true
 				}
 			}
-			if call, ok := x.(*ssa.Call); ok && ir.IsCallTo(&call.Call, "strconv.FormatInt") {
+			if call, ok := x.(*ssa.Call); ok && intFormatArg(call) >= 0 {
 				return true
 			}
 			return false
@@ -783,7 +783,7 @@ func ruleRawFields(c *chk.Ctx) {
 				}
 				bad = append(bad, "extract "+x.String())
 			case *ssa.Call:
-				if ir.IsCallTo(&x.Call, "strconv.FormatInt") {
+				if intFormatArg(x) >= 0 {
 					continue
 				}
 				bad = append(bad, "call "+ir.CalleeName(&x.Call))
@@ -1625,9 +1625,10 @@ func reachesCallee(c *chk.Ctx, f, g *ssa.Function, depth int) bool {
 // errorsThroughFilter traces an error result back: through reports whether every
 // non-nil source is a call of filterError, some whether there is such a call.
 func errorsThroughFilter(c *chk.Ctx, ev ssa.Value) (through, some bool) {
+	fe := filterErrorFunc(c)
 	isFilter := func(v ssa.Value) bool {
 		call, ok := v.(*ssa.Call)
-		return ok && call.Call.StaticCallee() != nil && call.Call.StaticCallee().Name() == "filterError"
+		return ok && fe != nil && call.Call.StaticCallee() == fe
 	}
 	through = true
 	for _, src := range c.P.SourcesStop(ev, isFilter) {
@@ -1640,4 +1641,18 @@ func errorsThroughFilter(c *chk.Ctx, ev ssa.Value) (through, some bool) {
 		}
 	}
 	return
+}
+
+
+// filterErrorFunc resolves, by signature, the function that turns a peer's
+// *Error back into the error the caller sees: func(*Error) error.
+func filterErrorFunc(c *chk.Ctx) *ssa.Function {
+	var fe *ssa.Function
+	for _, f := range pkgFuncs(c, c.M.Pkg) {
+		if f.Parent() == nil && f.Signature.Recv() == nil && f.Signature.Params().Len() == 1 && f.Signature.Results().Len() == 1 &&
+			f.Signature.Params().At(0).Type().String() == "*"+c.M.ErrorT.String() && f.Signature.Results().At(0).Type().String() == "error" {
+			fe = f
+		}
+	}
+	return fe
 }
